@@ -88,3 +88,31 @@ def rand_v2(rng, level):
     if level >= 2 and rng.chance(2, 3):
         t += toks(V2E, rand_vals(rng, V2E))
     return "/".join(t)
+
+
+def special_vector(rng, ver, L):
+    """vectors on rarely taken paths: zero (modified) impact, scope overridden by Modified Scope, capped and
+    saturated scores, negative v2 adjusted base, everything Not Defined"""
+    if ver == 3:
+        b = ["AV:N/AC:L/PR:L/UI:N/S:U/C:H/I:H/A:H", "AV:N/AC:L/PR:N/UI:N/S:C/C:H/I:H/A:H", "AV:P/AC:H/PR:H/UI:R/S:C/C:N/I:N/A:N",
+             "AV:L/AC:L/PR:H/UI:N/S:C/C:L/I:N/A:N"]
+        e = ["", "/MS:C/MC:N/MI:N/MA:N", "/MS:U/MC:N/MI:N/MA:N", "/MS:C", "/MS:U/MPR:H", "/CR:H/IR:H/AR:H/MC:H/MI:H/MA:H",
+             "/MAV:X/MAC:X/MPR:X/MUI:X/MS:X/MC:X/MI:X/MA:X/CR:X/IR:X/AR:X", "/MC:N/MI:N/MA:N/MS:X"]
+        t = ["", "/E:U/RL:O/RC:U", "/E:X/RL:X/RC:X", "/E:H/RL:U/RC:C"]
+        s = "CVSS:%s/%s" % (rng.choice(VERS3), rng.choice(b))
+        if L >= 1:
+            s += rng.choice(t)
+        if L >= 2:
+            s += rng.choice(e)
+        return s
+    b = ["AV:L/AC:H/Au:M/C:N/I:N/A:N", "AV:N/AC:L/Au:N/C:C/I:C/A:C", "AV:L/AC:H/Au:M/C:P/I:N/A:N", "AV:A/AC:L/Au:N/C:N/I:P/A:C"]
+    t = ["", "/E:ND/RL:ND/RC:ND", "/E:U/RL:OF/RC:UC", "/E:ND/RL:ND/RC:UC"]
+    e = ["", "/CDP:ND/TD:ND/CR:ND/IR:ND/AR:ND", "/CDP:H/TD:N/CR:H/IR:H/AR:H", "/CDP:N/TD:H/CR:L/IR:L/AR:L", "/CDP:LM/TD:M/CR:ND/IR:ND/AR:L"]
+    s = rng.choice(b)
+    if L >= 1:
+        s += rng.choice(t)
+    if L >= 2:
+        s += rng.choice(e)
+    return s
+
+
